@@ -310,7 +310,7 @@ def emit_variant(v, P, meta):
     t += '/-- untrusted certificate: indices of the inverses, and of the products `Rs[inv i]·Rs[j]` -/\n'
     t += 'def invCert_%s : List Nat := %s\n\n' % (name, inv)
     t += 'def prodCert_%s : List (List Nat) := [\n  %s]\n\n' % (name, ',\n  '.join(str(row) for row in tbl))
-    t += '/-- the rotation list is closed under `R⁻¹S` -/\n'
+    t += '/-- the rotation list contains the identity and is closed under `R⁻¹S` -/\n'
     t += 'theorem group_%s : IsGroup rots_%s :=\n  groupB_spec (inv := invCert_%s) (tbl := prodCert_%s) (by decide +kernel)\n\n' % (name, name, name, name)
     # cones
     iq = [seg_ineqs(s) for s in segs]
@@ -457,9 +457,11 @@ def sanity(v, P):
 
 def main(argv):
     outdir = os.path.join(OUT, 'T54')
+    metapath = os.path.join(OUT, 't54_meta.json')
     for a in argv:
         if a.startswith('--out='):
             outdir = a[6:]
+            metapath = os.path.join(outdir, 't54_meta.json')
     ft = gen_hkl.get_functions(os.path.join(REPO, 'xfab', 'tools.py'))
     fl = gen_hkl.get_functions(os.path.join(REPO, 'xfab', 'laue.py'))
     rules = gen_hkl.extract_segm(ft)[0]
@@ -512,7 +514,7 @@ def main(argv):
         a += '  refine List.forall_mem_cons.2 ⟨⟨T54.holds_%s, T54.isGroup_%s⟩, ?_⟩\n' % (key, key)
     a += '  exact fun _ hx => absurd hx List.not_mem_nil\n'
     changed += write_if_changed(os.path.join(outdir, 'All.lean'), a)
-    write_if_changed(os.path.join(OUT, 't54_meta.json'), json.dumps(meta, indent=1, sort_keys=True))
+    write_if_changed(metapath, json.dumps(meta, indent=1, sort_keys=True))
     nbad = sum(1 for m in meta['variants'].values() if any(m['sanity'].values()) or m['existence_bad'])
     print('gen_t54: %d variants, %d tables, %d leaves, %d variants failing on the samples, %d files changed' % (
         len(order), len(settings), sum(m['leaves'] for m in meta['variants'].values()), nbad, changed))
